@@ -169,6 +169,73 @@ def common_obligations(ctx, repo, pid):
         check_aliases(ctx, repo, pid, scope, report_modules=mods)
 
 
+def run_sentinels(ctx: Ctx, pid: str):
+    """thorough tier: the checker is exercised on scratch copies of the CURRENT tree with one catalogued edit each
+    (selftest/catalogue.py): a must-fire edit has to add a violated obligation, a behaviour-preserving edit must add none.
+    A sentinel that does not behave makes the run INCONCLUSIVE (the checker, not the repository, is then in doubt)."""
+    import concurrent.futures as cf
+    import shutil
+    import subprocess
+    import tempfile
+    sys.path.insert(0, os.path.join(VERIF, "selftest"))
+    try:
+        from catalogue import CATALOGUE, FIRE
+    except Exception as e:      # catalogue missing: say so, never pass silently
+        ctx.inconclusive("SENTINEL", f"{pid}.sentinels", "selftest catalogue could not be loaded", witness=str(e))
+        return
+    base_v = {f"{o.oid}|{o.key}" for o in ctx.obs if o.status == VIOLATED}
+    base_i = {f"{o.oid}|{o.key}" for o in ctx.obs if o.status == INCONCLUSIVE}
+    entries = [e for e in CATALOGUE if pid in e[1]]
+    if pid == "C19":
+        entries = entries[:6]      # each C19 run costs ~10 s
+
+    def one(entry):
+        name, pids, edits, expect = entry
+        d = tempfile.mkdtemp(prefix="verif_sent_")
+        try:
+            for sub in ("molgri", "workflow"):
+                shutil.copytree(os.path.join(REPO, sub), os.path.join(d, sub), ignore=shutil.ignore_patterns("__pycache__", "*.pyc"))
+            for rel, old, new in edits:
+                pth = os.path.join(d, rel)
+                txt = open(pth).read()
+                if txt.count(old) != 1:
+                    return name, expect, "skipped", ""
+                open(pth, "w").write(txt.replace(old, new))
+            dump = os.path.join(d, "keys.json")
+            env = dict(os.environ, VERIF_REPO=d, VERIF_NO_EVIDENCE="1", VERIF_DUMP=dump, VERIF_TIER="quick", VERIF_NO_SENTINELS="1")
+            subprocess.run([sys.executable, "-m", "sa.driver", pid, "--tier", "quick"], env=env, cwd=VERIF, capture_output=True, text=True)
+            try:
+                k = json.load(open(dump))
+            except Exception as e:
+                return name, expect, "error", str(e)
+            newv = sorted(set(k["violated"]) - base_v)
+            newi = sorted(set(k["inconclusive"]) - base_i)
+            if expect == FIRE:
+                return name, expect, ("ok" if newv else "silent"), (newv or newi or [""])[0]
+            return name, expect, ("ok" if not newv and not newi else "alarm"), (newv or newi or [""])[0]
+        finally:
+            shutil.rmtree(d, ignore_errors=True)
+    results = []
+    with cf.ThreadPoolExecutor(8) as ex:
+        results = list(ex.map(one, entries))
+    ran = [r for r in results if r[2] != "skipped"]
+    ctx.instance("SENTINEL", len(ran))
+    ctx.extra["sentinels"] = {"catalogued": len(entries), "applied": len(ran), "skipped_anchor_missing": len(entries) - len(ran),
+                              "must_fire_ok": sum(1 for r in ran if r[1] == FIRE and r[2] == "ok"),
+                              "must_stay_silent_ok": sum(1 for r in ran if r[1] != FIRE and r[2] == "ok")}
+    bad = [r for r in ran if r[2] != "ok"]
+    if bad:
+        for name, expect, st, info in bad[:5]:
+            ctx.inconclusive("SENTINEL", f"{pid}.sentinel.{name}", "checker self-validation failed on a scratch variant of the current tree: "
+                             + ("a must-fire edit added no violated obligation" if st == "silent" else
+                                "a behaviour-preserving edit added an alarm" if st == "alarm" else "the variant run did not complete"),
+                             witness=str(info)[:300])
+    else:
+        ctx.ok("SENTINEL", f"{pid}.sentinels", f"{len(ran)} catalogued scratch variants of the current tree behave as expected "
+               f"({ctx.extra['sentinels']['must_fire_ok']} must-fire edits each add a violated obligation, "
+               f"{ctx.extra['sentinels']['must_stay_silent_ok']} behaviour-preserving edits add none)", "selftest/catalogue.py")
+
+
 def load_known():
     if not os.path.exists(KNOWN_FINDINGS):
         return []
@@ -197,6 +264,8 @@ def run_property(pid: str, tier: str = "quick", replay: Optional[str] = None) ->
         ctx.repo = repo
         mod.run(ctx, repo, tier)
         common_obligations(ctx, repo, pid)
+        if tier == "thorough" and not replay and not os.environ.get("VERIF_NO_SENTINELS"):
+            run_sentinels(ctx, pid)
     except AnalysisError as e:
         fatal = f"{e}"
         ctx.inconclusive("ENGINE", "engine.analysis", "analysis could not be completed", witness=str(e))
@@ -216,6 +285,10 @@ def run_property(pid: str, tier: str = "quick", replay: Optional[str] = None) ->
             unlisted.append(o)
     incon = [o for o in ctx.obs if o.status == INCONCLUSIVE]
     discharged = [o for o in ctx.obs if o.status == DISCHARGED]
+    if os.environ.get("VERIF_DUMP"):
+        with open(os.environ["VERIF_DUMP"], "w") as f:
+            json.dump({"violated": sorted({f"{o.oid}|{o.key}" for o in violations}),
+                       "inconclusive": sorted({f"{o.oid}|{o.key}" for o in incon})}, f)
 
     os.makedirs(EVIDENCE_DIR, exist_ok=True)
     replay_paths = []
